@@ -14,7 +14,7 @@ C02 regress/C02-hit-deleted-909034211179316128.json 202bbc8
 C02 regress/C02-panic-1727719820149754971.json e86815d
 C05 regress/C05-cancel-truncate-7021487279790990957.json 38886a3
 C05 regress/C05-final-not-highest-7581099033439676226.json 553583f
-C17 regress/C17-gc-overlap-4858851115302786177.json 42dd775
+C17 regress/C17-gc-overlap-3129677609247335922.json 42dd775
 C06 regress/C06-crash-durable-unreadable-1455515618905527154.json 94ae13f
 C09 regress/C09-corrupt-lost-intact-3055599256311486531.json c2ac8c8
 C11 regress/C11-proto-no-reply-4354168449822104225.json e6b7fd6
